@@ -281,7 +281,7 @@ func run(c *hl.Ctx) error {
 	for _, t := range d2themescatalog.DarkCatalog {
 		ids = append(ids, t.ID)
 	}
-	nprog := c.Pick(60, 3000)
+	nprog := c.Pick(60, 1500)
 	if c.Search && c.Tier != "thorough" {
 		nprog = 150
 	}
